@@ -5,9 +5,9 @@
   (instances of exactly the declared class, attributes in constructor order, every set attribute
   not None and itself in the fragment, every unset field optional without a default) and
   `Optional[X]` (`AnyOf[NoneField, X]`) holding a value, mutable Set, Map with String keys, at any
-  nesting depth.
+  nesting depth, and `AnyOf` over options that are distinguishable on the value held (`inFragAny`).
   StructureReference, ImmutableSet, Map with other keys, untyped collections / Anything / OneOf / AllOf / NotField /
-  wider AnyOf are outside this predicate: for them the round trip is decided by the correspondence
+  AnyOf over indistinguishable options are outside this predicate: for them the round trip is decided by the correspondence
   harness (the model mirrors their code paths); the field-level theorems are therefore `_partial`.
 -/
 import TypedpyModel.Sem.Deser
@@ -37,6 +37,44 @@ def isNoneDecl : FieldDecl → Bool
   | .noneF => true
   | _ => false
 
+/-- the JSON type of a document value (`other`: not a JSON value) -/
+inductive DocKind where | null | bool | int | float | str | list | dict | other
+deriving DecidableEq, Repr
+
+def docKind : PyVal → DocKind
+  | .none => .null
+  | .bool _ => .bool
+  | .int _ => .int
+  | .float _ => .float
+  | .str _ => .str
+  | .list _ => .list
+  | .dict _ => .dict
+  | _ => .other
+
+/-- JSON types a declaration's deserializer can possibly accept, judged by the top-level shape alone
+    (`true` wherever the answer needs more than the shape): a document of any other JSON type is
+    rejected by `deserialize_single_field` — this is what makes two AnyOf options distinguishable -/
+def acceptsDoc : FieldDecl → DocKind → Bool
+  | _, .other => true
+  | .number _, k => k == .bool || k == .int || k == .float
+  | .integer _, k => k == .bool || k == .int
+  | .float _, k => k == .int || k == .float
+  | .string _ _ _, k => k == .str
+  | .boolean, k => k == .bool || k == .str
+  | .enumCls _ _, k => k == .str
+  | .seqAny _ _, k => k == .list
+  | .seqOf _ _ _, k => k == .list
+  | .seqPos _ _ _ _, k => k == .list
+  | .setAny _ _, k => k == .list
+  | .setOf _ _ _, k => k == .list
+  | .tupleOf _ _, k => k == .list
+  | .tuplePos _ _, k => k == .list
+  | .mapAny _, k => k == .dict
+  | .mapOf _ _ _, k => k == .dict
+  | .struct _ _ _, k => k == .dict
+  | .noneF, k => k == .null
+  | _, _ => true
+
 /-- a field that may stay unset: not required and without a default the constructor would fill in -/
 def absentOk (c : ClassOpts) (defaults : List (String × PyVal)) (n : String) : Bool :=
   !c.required.contains n && (match lookup n defaults with | none => true | some d => d.isNone)
@@ -63,7 +101,8 @@ def inFrag (O : Oracles) : FieldDecl → PyVal → Bool
             n == c.name && c.required.all (fun r => (lookup r attrs).isSome)
               && canonAttrs O c defaults fields attrs
           | _ => false)
-  | .anyOf fs, v => inFragOpt O fs v
+  | .anyOf fs, v => inFragAny O fs v
+  | .noneF, v => v.isNone
   /- a (mutable) Set: the stored elements are hashable and pairwise distinct, as in every real set
      (an ImmutableSet stores a frozenset, which deserializes to a set first and is frozen by the
      constructor: equal, but not identical in the model) -/
@@ -79,12 +118,21 @@ def inFrag (O : Oracles) : FieldDecl → PyVal → Bool
   | _, _ => false
 termination_by structural f _ => f
 
-/-- `Optional[X]` = `AnyOf[NoneField, X]` holding a (non-None) value of the fragment of `X` -/
-def inFragOpt (O : Oracles) : List FieldDecl → PyVal → Bool
+/-- `AnyOf[f₁, …, fₙ]` holding `v`: the FIRST option whose shallow check (the `_validate` that
+    serialize_multifield_wrapper runs) passes is the option the value belongs to — `v` conforms to it and
+    lies in its fragment — and every option listed before it is DISTINGUISHABLE from it on this value: its
+    shallow check fails (the serializer skips it), its validation fails (the constructor skips it) and it
+    cannot accept a document of the JSON type the value serializes to (the deserializer skips it).
+    `Optional[X]` in either order, `AnyOf[A, B, None]`, unions of scalars with collections or classes. -/
+def inFragAny (O : Oracles) : List FieldDecl → PyVal → Bool
   | [], _ => false
-  | [_], _ => false
-  | f :: g :: [], v => isNoneDecl f && !v.isNone && conforms O g v && inFrag O g v
-  | _ :: _ :: _ :: _, _ => false
+  | f :: fs, v =>
+    if shallowOk O f v then conforms O f v && inFrag O f v
+    else !(validate O f v).toBool
+      && (match serFirst O fs v with
+          | .ok j => !acceptsDoc f (docKind j)
+          | .error _ => false)
+      && inFragAny O fs v
 termination_by structural fs _ => fs
 
 /-- the attribute list of an instance as the constructor builds it: declared fields only, in
